@@ -427,15 +427,17 @@ end Value
 
 /-! ### the operation methods of `cty.Value` that C04 quantifies over -/
 
-/-- The eighteen operation methods that return a `Value` (the remaining exported
-ones — `NotEqual`, `LessThanOrEqualTo`, `GreaterThanOrEqualTo` — are compositions
-of these).  `getAttr` carries its name argument, `hasElement` the bucket id of the
-deeply unmarked needle (oracle column). -/
+/-- The operation methods that return a `Value`: eighteen with a mark prologue of
+their own and the three that are compositions of those (`NotEqual` =
+`Equals.Not`, `LessThanOrEqualTo` = `LessThan.Or(Equals)`, `GreaterThanOrEqualTo`
+= `GreaterThan.Or(Equals)`).  `getAttr` carries its name argument, `hasElement`
+the bucket id of the deeply unmarked needle (oracle column). -/
 inductive Op where
   | equals | add | sub | mul | div | mod | neg | abs | not | and | or | lt | gt
   | index | hasIndex | length
   | getAttr (name : String)
   | hasElement (needleHash : Option Int)
+  | notEqual | le | ge
   deriving Repr, BEq, DecidableEq
 
 namespace Op
@@ -461,13 +463,19 @@ def run : Op → List Value → Res Value
   | .length, [a] => Value.length a
   | .getAttr n, [a] => Value.getAttr a n
   | .hasElement h, [a, b] => Value.hasElement a b h
+  | .notEqual, [a, b] => Value.notEqual a b
+  | .le, [a, b] => Value.lessThanOrEqualTo a b
+  | .ge, [a, b] => Value.greaterThanOrEqualTo a b
   | _, _ => .unmodelled
 
 /-- The marks of operand number `i` that the method promises to keep on its
-result: the top-level marks, and for `Equals` (both operands) and the needle of
-`HasElement` the marks at every depth. -/
+result: the top-level marks, and for `Equals` (both operands), the three methods
+built on it, and the needle of `HasElement` the marks at every depth. -/
 def promised : Op → Nat → Value → List String
   | .equals, _, a => a.marksDeep
+  | .notEqual, _, a => a.marksDeep
+  | .le, _, a => a.marksDeep
+  | .ge, _, a => a.marksDeep
   | .hasElement _, 1, a => a.marksDeep
   | _, _, a => a.marks
 
